@@ -341,6 +341,14 @@ def skeletons(tier):
                 ('B', [('T', 'inv', None)], [C('A', T_(C('G', T_(TB))))]),
                 ('E', [('T', 'inv', C('G', T_(num)))], [])]
             out.append(Skeleton(classes, 'F3 G<%s> A<%s> B<T>:A<G<T>> E<T:G<Number>>' % (vg, v1)))
+    # family 5: a generic class below a simple class (bare constructors among the subtypes of an argument)
+    for vg in VARIANCES:
+        classes = base_classes() + [
+            ('R', [('T', 'inv', None)], [C('Q')]),
+            ('G', [('T', vg, None)], []),
+            ('D', [], [C('G', T_(C('Integer')))]),
+            ('D2', [], [C('D')])]
+        out.append(Skeleton(classes, 'F5 R<T>:Q G<%s T> D:G<Integer> D2:D' % vg))
     # family 4: supertypes that carry use-site projections in nested positions
     for vg in ('inv', 'out'):
         TB = V('T', None)
@@ -366,6 +374,19 @@ def skeletons(tier):
         else:
             rejected += 1
     if tier == 'quick':
-        # a fixed, evenly spread subset (pure function of the grammar, not of VERIF_SEED)
-        res = [s for i, s in enumerate(res) if i % 3 == 0]
+        # a fixed, evenly spread subset (pure function of the grammar, not of VERIF_SEED): every third
+        # table of the two big families, a third of F3, all of the small families F4/F5
+        big = [s for s in res if s.label.startswith(('F1', 'F2'))]
+        f3 = [s for s in res if s.label.startswith('F3')]
+        small = [s for s in res if s.label.startswith(('F4', 'F5'))]
+        res = big[::3] + f3[::3] + small
     return res, rejected
+
+
+def quick_core(sks):
+    """a small fixed selection for the expensive inner-tree checks: spread over F1/F2, one F3, one F4, all F5"""
+    big = [s for s in sks if s.label.startswith(('F1', 'F2'))]
+    f3 = [s for s in sks if s.label.startswith('F3')]
+    f4 = [s for s in sks if s.label.startswith('F4')]
+    f5 = [s for s in sks if s.label.startswith('F5')]
+    return big[::8] + f3[-1:] + f4[:1] + f5
